@@ -332,6 +332,42 @@ def symlink_case(rng, root):
     return None
 
 
+def file_symlink_case(rng, root):
+    """a script FILE that is a symbolic link to a file in another directory (the main script, or an included one): its include
+    lines are relative to the including file as it is NAMED (the directory the link sits in), where the intended sub-program
+    lies; a different program of the same name sits next to the link's target (-> message or None)"""
+    import blackbird
+    proj, shared = os.path.join(root, "project"), os.path.join(root, "shared")
+    os.makedirs(os.path.join(proj, "parts"))
+    os.makedirs(shared)
+    a = rng.choice([0.25, 0.5, 0.75])
+    open(os.path.join(proj, "sub.xbb"), "w").write("name Sub\nversion 1.0\nRgate({t}) | 3\nBSgate({t}, 0.5) | [7, 3]\n")
+    open(os.path.join(proj, "parts", "sub.xbb"), "w").write("name Sub\nversion 1.0\nRgate({t}) | 3\nBSgate({t}, 0.5) | [7, 3]\n")
+    open(os.path.join(shared, "sub.xbb"), "w").write("name Sub\nversion 1.0\nSgate({t}) | 7\nSgate({t}) | 3\n")
+    open(os.path.join(shared, "top_v1.xbb"), "w").write('name top\nversion 1.0\ninclude "sub.xbb"\nSub(t=%s) | [5, 2]\nSub(t=0.125) | [2, 5]\n' % a)
+    open(os.path.join(shared, "mid_v1.xbb"), "w").write('name Mid\nversion 1.0\ninclude "sub.xbb"\nSub(t=%s) | [0, 1]\n' % a)
+    os.symlink(os.path.join("..", "shared", "top_v1.xbb"), os.path.join(proj, "top.xbb"))
+    os.symlink(os.path.join(shared, "mid_v1.xbb"), os.path.join(proj, "parts", "mid.xbb"))
+    open(os.path.join(proj, "outer.xbb"), "w").write('name outer\nversion 1.0\ninclude "parts/mid.xbb"\nMid | [4, 6]\nVac | 0\n')
+    want_top = "name top\nversion 1.0\nRgate(%s) | 5\nBSgate(%s, 0.5) | [2, 5]\nRgate(0.125) | 2\nBSgate(0.125, 0.5) | [5, 2]\n" % (a, a)
+    want_outer = "name outer\nversion 1.0\nRgate(%s) | 4\nBSgate(%s, 0.5) | [6, 4]\nVac | 0\n" % (a, a)
+    old = os.getcwd()
+    try:
+        for cwd, given, want in ((root, os.path.join(proj, "top.xbb"), want_top), (proj, "top.xbb", want_top), (root, os.path.join("project", "top.xbb"), want_top),
+                                 (shared, os.path.join(proj, "outer.xbb"), want_outer), (proj, "outer.xbb", want_outer)):
+            os.chdir(cwd)
+            try:
+                p = blackbird.load(given)
+            except Exception as e:  # noqa: BLE001
+                return "a script reached through a symbolic link to a file (%s) fails to load: %s: %s" % (given.replace(root, "<root>"), type(e).__name__, str(e)[:120])
+            if not close_digest(ops_digest(p), ops_digest(blackbird.loads(want))):
+                return "includes of a script file that is a symbolic link (%s) are not resolved next to the including file as named: %s, expected %s" % (
+                    given.replace(root, "<root>"), ops_digest(p)[:2], ops_digest(blackbird.loads(want))[:2])
+    finally:
+        os.chdir(old)
+    return None
+
+
 def run(tier, seed):
     res = Result(PROP, tier, seed)
     rng = random.Random(seed)
@@ -679,6 +715,15 @@ def run(tier, seed):
                     ok = False
                     res.violate(msg, {"check": "symlink"})
                     break
+            for k in range(2 if quick else 10):
+                impl.reset_tables()
+                msg = file_symlink_case(rng, os.path.join(scratch, "FSL%d" % k))
+                res.case("file-symlink-%d" % k, True, None)
+                res.count("file-symlink-layout")
+                if msg:
+                    ok = False
+                    res.violate(msg, {"check": "file-symlink"})
+                    break
             res.oblige("correspondence: load(main) = model inlining = load(inlined text), for 3 working directories; bad calls refused", "correspondence", ok)
             model.close()
         else:
@@ -696,6 +741,15 @@ def run(tier, seed):
 
 
 def replay(rep):
+    if rep["input"].get("check") == "file-symlink":
+        import impl  # noqa: F401
+        d = tempfile.mkdtemp(prefix="bbverif.", dir="/var/tmp")
+        try:
+            msg = file_symlink_case(random.Random(0), os.path.join(d, "FSL"))
+        finally:
+            shutil.rmtree(d, ignore_errors=True)
+        print(msg)
+        return 1 if msg else 0
     if rep["input"].get("check") == "symlink":
         import impl  # noqa: F401
         d = tempfile.mkdtemp(prefix="bbverif.", dir="/var/tmp")
